@@ -7,9 +7,9 @@ Local Open Scope N_scope.
 (* 1. type strings                                                     *)
 (* ================================================================== *)
 
-Definition pkg_ok (q : bool) (pkg : option pkgid) : bool :=
+Definition pkg_ok (fx q : bool) (pkg : option pkgid) : bool :=
   match pkg with
-  | Some p => if q then str_eqb (targ_pkg p) (go_pkg true p) else true
+  | Some p => if q then str_eqb (targ_pkg fx p) (go_pkg true p) else true
   | None => true
   end.
 
@@ -19,45 +19,46 @@ Definition is_msnil (ms : methods) : bool := match ms with MsNil => true | _ => 
 Definition is_nil (s : str) : bool := match s with [] => true | _ => false end.
 
 (* The types on which llgo's string is the one Go documents.  q: inside a type argument list.
-   Excluded (each exclusion is witnessed by a _refuted theorem or listed as not modelled):
-   defined types whose underlying type carries the ExtraStar flag (type P *int), struct tags,
-   chan of a receive-only chan, map keys carrying the ExtraStar flag (pointer keys), main-package
-   types as type arguments when the import path of main is not main / command-line-arguments,
-   struct, func and non-empty interface literals as type arguments. *)
-Fixpoint wf (q : bool) (t : ty) : bool :=
+   For the code that exists (fx = true) the exclusions are: struct, func and non-empty interface
+   literals as type arguments (types.TypeString fallback, not modelled), and packages whose
+   type-argument qualifier differs (a non-main package built as command-line-arguments, patched
+   runtime packages).  Before the repairs (fx = false) also: defined types whose underlying type
+   carries the ExtraStar flag (type P *int), struct tags, chan of a receive-only chan, map keys
+   carrying the ExtraStar flag (pointer keys), main-package types as type arguments. *)
+Fixpoint wf (fx q : bool) (t : ty) : bool :=
   match t with
   | TBasic _ => true
   | TCut => true
-  | TNamed pkg _ targs und => negb (es und) && pkg_ok q pkg && wf_targs targs
-  | TPtr e => wf q e
-  | TSlice e => wf q e
-  | TArray _ e => wf q e
-  | TMap k e => negb (es k) && wf q k && wf q e
-  | TChan d e => wf q e && negb (match d with DBoth => is_recv_chan e | _ => false end)
-  | TFunc ps rs v => negb q && wf_params ps v && wf_list rs
-  | TStruct fs => negb q && wf_fields fs
-  | TIface ms => if q then is_msnil ms else wf_methods ms
+  | TNamed pkg _ targs und => (fx || negb (es fx und)) && pkg_ok fx q pkg && wf_targs fx targs
+  | TPtr e => wf fx q e
+  | TSlice e => wf fx q e
+  | TArray _ e => wf fx q e
+  | TMap k e => (fx || negb (es fx k)) && wf fx q k && wf fx q e
+  | TChan d e => wf fx q e && (fx || negb (match d with DBoth => is_recv_chan e | _ => false end))
+  | TFunc ps rs v => negb q && wf_params fx ps v && wf_list fx rs
+  | TStruct fs => negb q && wf_fields fx fs
+  | TIface ms => if q then is_msnil ms else wf_methods fx ms
   end
-with wf_targs (ts : tys) : bool :=
-  match ts with TsNil => true | TsCons t r => wf true t && wf_targs r end
-with wf_list (ts : tys) : bool :=
-  match ts with TsNil => true | TsCons t r => wf false t && wf_list r end
-with wf_params (ts : tys) (v : bool) : bool :=
+with wf_targs (fx : bool) (ts : tys) : bool :=
+  match ts with TsNil => true | TsCons t r => wf fx true t && wf_targs fx r end
+with wf_list (fx : bool) (ts : tys) : bool :=
+  match ts with TsNil => true | TsCons t r => wf fx false t && wf_list fx r end
+with wf_params (fx : bool) (ts : tys) (v : bool) : bool :=
   match ts with
   | TsNil => true
-  | TsCons t TsNil => if v then match t with TSlice e => wf false e | _ => false end else wf false t
-  | TsCons t r => wf false t && wf_params r v
+  | TsCons t TsNil => if v then match t with TSlice e => wf fx false e | _ => false end else wf fx false t
+  | TsCons t r => wf fx false t && wf_params fx r v
   end
-with wf_fields (fs : fields) : bool :=
+with wf_fields (fx : bool) (fs : fields) : bool :=
   match fs with
   | FsNil => true
-  | FsCons _ _ tag t r => is_nil tag && wf false t && wf_fields r
+  | FsCons _ _ tag t r => (fx || is_nil tag) && wf fx false t && wf_fields fx r
   end
-with wf_methods (ms : methods) : bool :=
+with wf_methods (fx : bool) (ms : methods) : bool :=
   match ms with
   | MsNil => true
   | MsCons _ _ _ sig r =>
-      match sig with TFunc ps rs v => wf_params ps v && wf_list rs | _ => false end && wf_methods r
+      match sig with TFunc ps rs v => wf_params fx ps v && wf_list fx rs | _ => false end && wf_methods fx r
   end.
 
 Lemma str_eqb_true_eq a b : str_eqb a b = true -> a = b.
@@ -66,18 +67,12 @@ Proof. apply str_eqb_eq. Qed.
 Lemma star_if_false s : star_if false s = s.
 Proof. reflexivity. Qed.
 
-Ltac bsplit :=
-  repeat match goal with
-         | H : _ && _ = true |- _ => apply andb_true_iff in H; destruct H
-         | H : negb _ = true |- _ => apply negb_true_iff in H
-         end.
-
 (* the tail of a result list *)
-Definition llgo_results (rs : tys) : str :=
+Definition llgo_results (fx : bool) (rs : tys) : str :=
   match rs with
   | TsNil => []
-  | TsCons r TsNil => [c_sp] ++ star_if (es r) (llgo_Str r)
-  | _ => [c_sp; c_lp] ++ llgo_list rs ++ [c_rp]
+  | TsCons r TsNil => [c_sp] ++ star_if (es fx r) (llgo_Str fx r)
+  | _ => [c_sp; c_lp] ++ llgo_list fx rs ++ [c_rp]
   end.
 Definition go_results (q : bool) (rs : tys) : str :=
   match rs with
@@ -86,8 +81,8 @@ Definition go_results (q : bool) (rs : tys) : str :=
   | _ => [c_sp; c_lp] ++ go_list q rs ++ [c_rp]
   end.
 
-Lemma results_eq rs :
-  llgo_list rs = go_list false rs -> llgo_results rs = go_results false rs.
+Lemma results_eq fx rs :
+  llgo_list fx rs = go_list false rs -> llgo_results fx rs = go_results false rs.
 Proof.
   destruct rs as [|r [|r2 rs2]]; intros H; cbn [llgo_results go_results]; auto.
   - cbn [llgo_list go_list] in H. now rewrite H.
@@ -96,41 +91,62 @@ Qed.
 
 Definition tail_sp (first nil : bool) : str := if first && nil then [] else [c_sp].
 
-Lemma str_all :
+(* the tag part of a field agrees under wf *)
+Lemma tag_eq fx tag : (fx || is_nil tag) = true ->
+  tag_str fx tag = match tag with [] => [] | _ => [c_sp] ++ go_quote tag end.
+Proof. destruct fx, tag; cbn; auto; discriminate. Qed.
+
+(* the element of a channel agrees under wf *)
+Lemma chan_eq fx d e s :
+  (fx || negb (match d with DBoth => is_recv_chan e | _ => false end)) = true ->
+  dir_str d ++ [c_sp] ++ chan_elem fx d e s =
+  match d with
+  | DBoth => s_chan ++ [c_sp] ++ (if is_recv_chan e then [c_lp] ++ s ++ [c_rp] else s)
+  | DSend => s_chansend ++ [c_sp] ++ s
+  | DRecv => s_recvchan ++ [c_sp] ++ s
+  end.
+Proof.
+  unfold chan_elem. destruct d; cbn [dir_str]; rewrite ?andb_false_r; try reflexivity.
+  destruct fx, (is_recv_chan e); cbn; auto; discriminate.
+Qed.
+
+Lemma str_all fx :
   (forall t,
-      (wf false t = true -> star_if (es t) (llgo_Str t) = go_str false t) /\
-      (wf true t = true -> star_if (es t) (llgo_targ t) = go_str true t)) /\
+      (wf fx false t = true -> star_if (es fx t) (llgo_Str fx t) = go_str false t) /\
+      (wf fx true t = true -> star_if (es fx t) (llgo_targ fx t) = go_str true t)) /\
   (forall ts,
-      (wf_list ts = true -> llgo_list ts = go_list false ts) /\
-      (forall v, wf_params ts v = true -> llgo_params ts v = go_params false ts v) /\
-      (wf_targs ts = true -> llgo_targs ts = go_targs ts)) /\
-  (forall fs, wf_fields fs = true -> forall first,
-      llgo_fields fs first = go_fields false fs first ++ tail_sp first (is_fsnil fs)) /\
-  (forall ms, wf_methods ms = true -> forall first,
-      llgo_methods ms first = go_methods false ms first ++ tail_sp first (is_msnil ms)).
+      (wf_list fx ts = true -> llgo_list fx ts = go_list false ts) /\
+      (forall v, wf_params fx ts v = true -> llgo_params fx ts v = go_params false ts v) /\
+      (wf_targs fx ts = true -> llgo_targs fx ts = go_targs ts)) /\
+  (forall fs, wf_fields fx fs = true -> forall first,
+      llgo_fields fx fs first = go_fields false fs first ++ tail_sp first (is_fsnil fs)) /\
+  (forall ms, wf_methods fx ms = true -> forall first,
+      llgo_methods fx ms first = go_methods false ms first ++ tail_sp first (is_msnil ms)).
 Proof.
   apply ty_mutind.
   - (* TBasic *) intros k; split; intros _; reflexivity.
   - (* TCut *) split; intros _; reflexivity.
   - (* TNamed *)
     intros pkg name targs [_ [_ IHt]] und _.
-    split; intros H; cbn [wf] in H;
-      apply andb_true_iff in H as [H Ht]; apply andb_true_iff in H as [He Hp];
-      apply negb_true_iff in He; specialize (IHt Ht).
-    + cbn [es]. rewrite He. cbn [star_if llgo_Str go_str].
+    assert (Hes : forall q, wf fx q (TNamed pkg name targs und) = true -> es fx (TNamed pkg name targs und) = false).
+    { intros q H. cbn [wf] in H. apply andb_true_iff in H as [H _]. apply andb_true_iff in H as [He _].
+      cbn [es]. destruct fx; [reflexivity|]. cbn [orb] in He. now apply negb_true_iff in He. }
+    split; intros H; rewrite (Hes _ H); cbn [wf] in H;
+      apply andb_true_iff in H as [H Ht]; apply andb_true_iff in H as [He Hp]; specialize (IHt Ht).
+    + cbn [star_if llgo_Str go_str].
       destruct pkg as [p|]; destruct targs; cbn [go_pkg];
         rewrite ?IHt; repeat rewrite <- app_assoc; reflexivity.
-    + cbn [es]. rewrite He. cbn [star_if llgo_targ go_str].
+    + cbn [star_if llgo_targ go_str].
       destruct pkg as [p|]; cbn [pkg_ok] in Hp.
       * apply str_eqb_true_eq in Hp. rewrite Hp.
         destruct targs; rewrite ?IHt; repeat rewrite <- app_assoc; reflexivity.
       * destruct targs; rewrite ?IHt; repeat rewrite <- app_assoc; reflexivity.
   - (* TPtr *)
     intros e [IH1 IH2]. split; intros H; cbn [wf] in H.
-    + specialize (IH1 H). cbn [es llgo_Str go_str]. destruct (es e); cbn [negb star_if] in *.
+    + specialize (IH1 H). cbn [es llgo_Str go_str]. destruct (es fx e); cbn [negb star_if] in *.
       * rewrite <- IH1. reflexivity.
       * rewrite <- IH1. reflexivity.
-    + specialize (IH2 H). cbn [es llgo_targ go_str]. destruct (es e); cbn [negb star_if] in *.
+    + specialize (IH2 H). cbn [es llgo_targ go_str]. destruct (es fx e); cbn [negb star_if] in *.
       * rewrite <- IH2. reflexivity.
       * rewrite <- IH2. reflexivity.
   - (* TSlice *)
@@ -142,17 +158,19 @@ Proof.
     + now rewrite (IH1 H).
     + now rewrite (IH2 H).
   - (* TMap *)
-    intros k [IHk1 IHk2] e [IHe1 IHe2]. split; intros H; cbn [wf] in H;
-      apply andb_true_iff in H as [H He]; apply andb_true_iff in H as [Hes Hk];
-      apply negb_true_iff in Hes; cbn [es star_if llgo_Str llgo_targ go_str].
-    + specialize (IHk1 Hk). rewrite Hes in IHk1. cbn [star_if] in IHk1. now rewrite IHk1, (IHe1 He).
-    + specialize (IHk2 Hk). rewrite Hes in IHk2. cbn [star_if] in IHk2. now rewrite IHk2, (IHe2 He).
+    intros k [IHk1 IHk2] e [IHe1 IHe2].
+    assert (Hk : (fx || negb (es fx k)) = true -> fx && es fx k = es fx k).
+    { destruct fx; cbn; [reflexivity|]. intros Hn. apply negb_true_iff in Hn. now rewrite Hn. }
+    split; intros H; cbn [wf] in H;
+      apply andb_true_iff in H as [H He]; apply andb_true_iff in H as [Hes Hwk];
+      cbn [es star_if llgo_Str llgo_targ go_str]; rewrite (Hk Hes).
+    + now rewrite (IHk1 Hwk), (IHe1 He).
+    + now rewrite (IHk2 Hwk), (IHe2 He).
   - (* TChan *)
     intros d e [IH1 IH2]. split; intros H; cbn [wf] in H;
-      apply andb_true_iff in H as [H Hd]; apply negb_true_iff in Hd;
-      cbn [es star_if llgo_Str llgo_targ go_str].
-    + rewrite (IH1 H). destruct d; cbn [dir_str]; try reflexivity. rewrite Hd. reflexivity.
-    + rewrite (IH2 H). destruct d; cbn [dir_str]; try reflexivity. rewrite Hd. reflexivity.
+      apply andb_true_iff in H as [H Hd]; cbn [es star_if llgo_Str llgo_targ go_str].
+    + rewrite (chan_eq fx d e _ Hd), (IH1 H). destruct d; reflexivity.
+    + rewrite (chan_eq fx d e _ Hd), (IH2 H). destruct d; reflexivity.
   - (* TFunc *)
     intros ps [_ [IHp _]] rs [IHr _] v. split; intros H; cbn [wf] in H;
       apply andb_true_iff in H as [H Hr]; apply andb_true_iff in H as [Hq Hp].
@@ -160,15 +178,15 @@ Proof.
       rewrite (IHp v Hp).
       change (match rs with
               | TsNil => []
-              | TsCons r TsNil => [c_sp] ++ star_if (es r) (llgo_Str r)
-              | TsCons r (TsCons _ _) => [c_sp; c_lp] ++ llgo_list rs ++ [c_rp]
-              end) with (llgo_results rs).
+              | TsCons r TsNil => [c_sp] ++ star_if (es fx r) (llgo_Str fx r)
+              | TsCons r (TsCons _ _) => [c_sp; c_lp] ++ llgo_list fx rs ++ [c_rp]
+              end) with (llgo_results fx rs).
       change (match rs with
               | TsNil => []
               | TsCons r TsNil => [c_sp] ++ go_str false r
               | TsCons r (TsCons _ _) => [c_sp; c_lp] ++ go_list false rs ++ [c_rp]
               end) with (go_results false rs).
-      now rewrite (results_eq rs (IHr Hr)).
+      now rewrite (results_eq fx rs (IHr Hr)).
     + discriminate.
   - (* TStruct *)
     intros fs IH. split; intros H; cbn [wf] in H;
@@ -192,7 +210,7 @@ Proof.
     + intros v H. cbn [llgo_params go_params]. destruct r.
       * cbn [wf_params] in H. destruct v.
         -- destruct t; try discriminate.
-           assert (W : wf false (TSlice t) = true) by exact H.
+           assert (W : wf fx false (TSlice t) = true) by exact H.
            specialize (IHt1 W). cbn [es star_if llgo_Str go_str] in IHt1.
            apply app_inv_head in IHt1. now rewrite IHt1.
         -- now rewrite (IHt1 H).
@@ -203,8 +221,7 @@ Proof.
   - (* FsCons *)
     intros name emb tag t [IHt _] r IHr H first. cbn [wf_fields] in H.
     apply andb_true_iff in H as [H Hr]. apply andb_true_iff in H as [Htag Ht].
-    destruct tag; [|discriminate].
-    cbn [llgo_fields go_fields is_fsnil]. rewrite (IHt Ht), (IHr Hr false).
+    cbn [llgo_fields go_fields is_fsnil]. rewrite (IHt Ht), (IHr Hr false), (tag_eq fx tag Htag).
     unfold tail_sp. rewrite andb_false_r. cbn [andb].
     repeat rewrite <- app_assoc. reflexivity.
   - (* MsNil *) intros _ first. destruct first; reflexivity.
@@ -212,7 +229,7 @@ Proof.
     intros name exp pn sig [IHs _] r IHr H first. cbn [wf_methods] in H.
     apply andb_true_iff in H as [H Hr].
     destruct sig; try discriminate. apply andb_true_iff in H as [Hp Hrs].
-    assert (W : wf false (TFunc ps rs variadic) = true).
+    assert (W : wf fx false (TFunc ps rs variadic) = true).
     { cbn [wf negb andb]. now rewrite Hp, Hrs. }
     specialize (IHs W). cbn [es star_if] in IHs.
     cbn [llgo_methods go_methods is_msnil es star_if]. rewrite IHs, (IHr Hr false).
@@ -221,45 +238,56 @@ Proof.
     repeat (rewrite <- ?app_assoc, <- ?app_comm_cons; cbn [app]). reflexivity.
 Qed.
 
-Theorem llgo_str_eq_go t : wf false t = true -> llgo_str t = go_type_string t.
-Proof. intros H. exact (proj1 (proj1 str_all t) H). Qed.
+Theorem llgo_str_eq_go fx t : wf fx false t = true -> llgo_str fx t = go_type_string t.
+Proof. intros H. exact (proj1 (proj1 (str_all fx) t) H). Qed.
 
-(* --- the exclusions are real: llgo's string differs from Go's --- *)
+(* --- what the repairs changed: before them (fx = false) llgo's string differs from Go's on the
+   shapes below, now (fx = true) these shapes are well-formed and the strings agree --- *)
 
 Definition p_main : pkgid := (lit "verifprog", lit "main").
 Definition t_int : ty := TBasic 2.
 (* type P *int *)
 Definition t_P : ty := TNamed (Some p_main) (lit "P") TsNil (TPtr t_int).
 
-Lemma named_pointer_differs : llgo_str t_P <> go_type_string t_P.
+Lemma named_pointer_differs : llgo_str false t_P <> go_type_string t_P.
 Proof. vm_compute. discriminate. Qed.
 
 Lemma named_pointer_strings :
-  llgo_str t_P = lit "*main.P" /\ go_type_string t_P = lit "main.P" /\
-  llgo_str (TPtr t_P) = lit "**main.P" /\ go_type_string (TPtr t_P) = lit "*main.P".
+  llgo_str false t_P = lit "*main.P" /\ go_type_string t_P = lit "main.P" /\
+  llgo_str false (TPtr t_P) = lit "**main.P" /\ go_type_string (TPtr t_P) = lit "*main.P".
 Proof. vm_compute. repeat split. Qed.
 
 Definition t_tagged : ty := TStruct (FsCons (lit "A") false (lit "json:""a""") t_int FsNil).
 Lemma struct_tag_strings :
-  llgo_str t_tagged = lit "struct { A int }" /\
+  llgo_str false t_tagged = lit "struct { A int }" /\
   go_type_string t_tagged = lit "struct { A int ""json:\""a\"""" }".
 Proof. vm_compute. split; reflexivity. Qed.
 
 Definition t_chanchan : ty := TChan DBoth (TChan DRecv t_int).
 Lemma chan_parens_strings :
-  llgo_str t_chanchan = lit "chan <-chan int" /\ go_type_string t_chanchan = lit "chan (<-chan int)".
+  llgo_str false t_chanchan = lit "chan <-chan int" /\ go_type_string t_chanchan = lit "chan (<-chan int)".
 Proof. vm_compute. split; reflexivity. Qed.
 
 Definition t_ptrkey : ty := TMap (TPtr t_int) (TBasic 17).
 Lemma pointer_key_strings :
-  llgo_str t_ptrkey = lit "map[int]string" /\ go_type_string t_ptrkey = lit "map[*int]string".
+  llgo_str false t_ptrkey = lit "map[int]string" /\ go_type_string t_ptrkey = lit "map[*int]string".
 Proof. vm_compute. split; reflexivity. Qed.
 
 Definition t_T : ty := TNamed (Some p_main) (lit "T") TsNil (TStruct FsNil).
 Definition t_G_T : ty := TNamed (Some p_main) (lit "G") (TsCons t_T TsNil) (TStruct FsNil).
 Lemma typearg_main_strings :
-  llgo_str t_G_T = lit "main.G[verifprog.T]" /\ go_type_string t_G_T = lit "main.G[main.T]".
+  llgo_str false t_G_T = lit "main.G[verifprog.T]" /\ go_type_string t_G_T = lit "main.G[main.T]".
 Proof. vm_compute. split; reflexivity. Qed.
+
+(* one type that combines all five shapes: well-formed for the code that exists *)
+Definition t_repaired : ty :=
+  TStruct (FsCons (lit "A") false (lit "json:""a""") (TPtr t_P)
+          (FsCons (lit "c") false [] t_chanchan
+          (FsCons (lit "m") false (lit "k") t_ptrkey
+          (FsCons (lit "g") false [] t_G_T FsNil)))).
+Lemma repaired_wf : wf true false t_repaired = true /\ wf false false t_repaired = false /\
+  llgo_str true t_repaired = go_type_string t_repaired /\ llgo_str false t_repaired <> go_type_string t_repaired.
+Proof. repeat split; vm_compute; try reflexivity. discriminate. Qed.
 
 (* ================================================================== *)
 (* 2. type flags                                                       *)
@@ -274,17 +302,17 @@ Fixpoint ptr_base (t : ty) : ty := match t with TPtr e => ptr_base e | _ => t en
 
 (* ExtraStar is the parity of the number of pointer constructors, flipped when the base of the
    chain is a defined type whose underlying type carries the flag *)
-Lemma es_parity t : es t = xorb (ptr_odd t) (es (ptr_base t)).
+Lemma es_parity fx t : es fx t = xorb (ptr_odd t) (es fx (ptr_base t)).
 Proof.
   induction t; try reflexivity.
   - cbn [es ptr_odd ptr_base]. match goal with |- ?x = xorb false ?x => now destruct x end.
   - cbn [es ptr_odd ptr_base]. rewrite IHt.
-    destruct (ptr_odd t), (es (ptr_base t)); reflexivity.
+    destruct (ptr_odd t), (es fx (ptr_base t)); reflexivity.
 Qed.
 
 (* the stored string never starts with the star the flag stands for: a pointer type with the
    flag stores the string of its element *)
-Lemma es_ptr_stored e : es (TPtr e) = true -> llgo_Str (TPtr e) = llgo_Str e.
+Lemma es_ptr_stored fx e : es fx (TPtr e) = true -> llgo_Str fx (TPtr e) = llgo_Str fx e.
 Proof. cbn [es llgo_Str]. intros H. apply negb_true_iff in H. now rewrite H. Qed.
 
 (* ================================================================== *)
@@ -648,7 +676,7 @@ Lemma deep_equal_sym_nomap fuel h a b :
 Proof. intros. unfold deep_equal. now rewrite (deep_sym fuel h H a b [] H0 H1). Qed.
 
 (* ---------- packaged statements used by Props.v ---------- *)
-Lemma named_pointer_refuted : exists t, llgo_str t <> go_type_string t /\ llgo_str t = lit "*main.P".
+Lemma named_pointer_refuted : exists t, llgo_str false t <> go_type_string t /\ llgo_str false t = lit "*main.P".
 Proof. exists t_P. split; [exact named_pointer_differs|exact (proj1 named_pointer_strings)]. Qed.
 
 Lemma method_table_facts ms :
@@ -670,3 +698,7 @@ Lemma deep_equal_nan_func :
   deep_equal 5 [] (VFloat 14 FNaN) (VFloat 14 FNaN) = Some false /\
   deep_equal 5 [] (VFunc 19 false) (VFunc 19 false) = Some false.
 Proof. split; [exact deep_equal_nan|exact (proj1 deep_equal_func)]. Qed.
+
+(* the code that exists: a defined type never carries ExtraStar (type P *int stores main.P) *)
+Lemma es_named_fixed pkg name targs und : es true (TNamed pkg name targs und) = false.
+Proof. reflexivity. Qed.
